@@ -3,6 +3,7 @@ package scn
 import (
 	"context"
 	"errors"
+	"fmt"
 
 	"github.com/aperturerobotics/util/broadcast"
 	"github.com/aperturerobotics/util/zzverif/vsched"
@@ -184,6 +185,9 @@ func init() {
 		Quick: eng.Bounds{PB: 2}, Thorough: eng.Bounds{PB: 3},
 		Body: func() {
 			var b broadcast.Broadcast
+			// the predicate's error: a plain error, or one that wraps context.Canceled (still the predicate's
+			// own error object: it comes back unchanged, the waiter's context is live)
+			errE := []error{errE, fmt.Errorf("lookup failed: %w", context.Canceled)}[vsched.Choose(2)]
 			T("W", func() { waiter(&b, bg, 2, 1, errE) })
 			T("B1", func() { bump(&b, 0) })
 			T("B2", func() { bump(&b, 2) })
@@ -206,7 +210,7 @@ func init() {
 		Body: func() {
 			var b broadcast.Broadcast
 			vsched.OnQuiescent(c03Quiescent(1))
-			how := vsched.Choose(3)
+			how := vsched.Choose(4)
 			T("W", func() { waiter(&b, bg, 1, 0, nil) })
 			T("B", func() {
 				defer func() { recover() }()
@@ -218,6 +222,14 @@ func init() {
 				}
 				switch how {
 				case 0:
+					b.HoldLock(cb)
+				case 3:
+					// a nil callback: the call panics inside the section (recovered by the deferred function above)
+					// or refuses; either way the lock is not left locked. Then the real section.
+					func() {
+						defer func() { recover() }()
+						b.TryHoldLock(nil)
+					}()
 					b.HoldLock(cb)
 				case 1:
 					if !b.TryHoldLock(cb) {
@@ -290,6 +302,7 @@ func init() {
 			h := vsched.Choose(3)
 			T("B1", func() { bump(&b, 0); bump(&b, h) })
 			h2 := vsched.Choose(3)
+			secondBc := vsched.Choose(2) == 1
 			T("B2", func() {
 				cb := func(bc func(), getWaitCh func() <-chan struct{}) {
 					// obtain, broadcast, obtain again, broadcast again inside one section; the
@@ -305,9 +318,11 @@ func init() {
 					hold(getWaitCh())
 					vsched.CtrAdd(cNB, 1)
 					bc()
-					hold(getWaitCh())
-					vsched.CtrAdd(cNB, 1)
-					bc()
+					hold(getWaitCh()) // obtained after a broadcast of this very section: a fresh, open channel
+					if secondBc {
+						vsched.CtrAdd(cNB, 1)
+						bc()
+					}
 				}
 				switch h2 {
 				case 0:
